@@ -108,6 +108,21 @@ def check_image(rec, n, nbins, idx, shard=False):
                     g2 = locate_droplets(f2, threshold=(a * t + b) if t is not None else rule)
                     if not _same(g2, got):
                         fails.append(f"{fam}: rule {rule!r} is not invariant under the affine map {a}*v+{b}")
+            # ---- the same image stored with an integer dtype (8-bit camera images): a positive affine map into 100..228
+            if hi > lo and fam in ("cart1", "cart2", "cart1p"):
+                a8 = 128.0 / float(hi - lo)
+                if float(a8).is_integer() or float(1 / a8).is_integer():
+                    d8 = (a8 * (data - lo) + 100).astype(np.uint8)
+                    for dt in (np.uint8, np.int16):
+                        fi = ScalarField(grid, d8.astype(dt), dtype=dt)
+                        for rule, mask, t in rules:
+                            if t is not None:
+                                continue
+                            ref = locate_droplets_in_mask(ScalarField(grid, mask.reshape(shape), dtype=bool))
+                            gi = locate_droplets(fi, threshold=rule)
+                            if not _same(gi, ref):
+                                fails.append(f"{fam}: rule {rule!r} on the image stored as {np.dtype(dt).name} (values {int(d8.min())}..{int(d8.max())}) "
+                                             "does not locate the droplets of the spec's binary image")
             if nbins == 256 and rec["otsu"]:
                 got = locate_droplets(field, threshold="otsu")
                 refs = [locate_droplets_in_mask(ScalarField(grid, m.reshape(shape), dtype=bool)) for m in otsu_masks]
